@@ -31,6 +31,8 @@ type World struct {
 	Acked         map[uint64]byte // flat memory of acknowledged writes only
 	WriteInflight map[uint64]int
 	Ctrl          *CtrlDriver
+	MaybeLost     map[uint64]bool // requests released by a reset of the agent holding them
+	OnResponse    func(rspTo uint64)
 	// AfterEvent is an optional monitor run after every handled event.
 	AfterEvent func(w *World, handler string)
 	// NoDataCheck disables the flat-memory comparison of read data (runs whose
@@ -220,7 +222,15 @@ func (r *Requester) handleRsp(m messaging.Msg, now uint64) {
 		w.fail("response-monitor", "C16:misaddressed-response", "%s received a response addressed to %s", r.name, meta.Dst)
 	}
 
+	if w.OnResponse != nil {
+		w.OnResponse(meta.RspTo)
+	}
+
 	o, ok := r.out[meta.RspTo]
+	if !ok && w.MaybeLost[meta.RspTo] {
+		return // sent before its agent was reset; the requester had been released from it
+	}
+
 	if !ok {
 		w.fail("response-monitor", "C16:unsolicited-or-duplicate-response", "%s received %T with RspTo=%d at t=%d, which matches no outstanding request (duplicate or unsolicited)", r.name, m, meta.RspTo, now)
 		return
